@@ -14,10 +14,10 @@
    What makes these definitions trustworthy.  Every operator has, next to it, its MEANING written
    with TLC's own integers (section "Meaning").  For small parameters (W = 1, 2, 3, 4, 8 and a few
    limbs, so that every value fits a TLC integer) TLC checks EXHAUSTIVELY, for all operands, that
-   the limb algorithm and the integer meaning agree (spec BignumCheck at the end; run by
-   checks/alu.py).  Because the algorithms are uniform in W and the lengths, they are then
+   the limb algorithm and the integer meaning agree (module BignumCheck; run by checks/alu.py and
+   checks/blobfee.py).  Because the algorithms are uniform in W and the lengths, they are then
    instantiated at W = 8 with 32 limbs (256-bit EVM words), 33 and 64 limbs (ADDMOD / MULMOD
-   intermediates) and 48 limbs (blob fee arithmetic), where they serve as the oracle.
+   intermediates) and 64 limbs (blob fee arithmetic), where they serve as the oracle.
 
    TLC notes.  [i \in 1..n |-> e] is evaluated lazily by TLC (e is re-evaluated at every
    application), so every operator returns a FORCED sequence (Force).  Loops are folds over index
